@@ -27,7 +27,7 @@ class Gen:
         if x < 0.45 + self.us:
             c = r.randrange(0x110000)
             return c
-        return r.choice([97, 98, 65, 49, 95, 32, 10, 0x85, 0xDF, 0x3AC, 0x4E00, 0x10FFFF, 0])
+        return r.choice([97, 98, 65, 49, 95, 32, 10, 39, 34, 58, 0x85, 0xDF, 0x3AC, 0x4E00, 0x10FFFF, 0])
 
     def string(self, maxlen=3):
         n = self.r.choice([0, 1, 1, 1, 2, 2, 3][:maxlen + 4])
